@@ -21,5 +21,11 @@ Spec == Init /\ [][Next]_<<edges, memo, qs>>
 MemoSound == \A k \in DOMAIN memo : memo[k] = AnswerAM(edges, N, k[1], k[2])
 Symmetric == \A a, b \in 1..N : AnswerAM(edges, N, a, b) = AnswerAM(edges, N, b, a)
 Predicted == qs = <<>> => \A i \in DOMAIN Family : Family[i].fam = "cantor" => Collide(Family[i].limbs)
-Emit == Len(qs) = L => EmitScenario([kind |-> "graph", n |-> N, edges |-> SetToSeq({<<e[1] - 1, e[2] - 1>> : e \in edges}), queries |-> qs \o [i \in DOMAIN qs |-> <<"var", qs[i][2], qs[i][3]>>]])
+\* the same graph with the first and the last variable living in one component (no edge joins them directly: a connection
+\* links two different components, but they may well be linked through the others)
+SharedHome == <<1, N>> \notin edges /\ <<N, 1>> \notin edges
+Emit == Len(qs) = L =>
+        /\ EmitScenario([kind |-> "graph", n |-> N, edges |-> SetToSeq({<<e[1] - 1, e[2] - 1>> : e \in edges}), queries |-> qs \o [i \in DOMAIN qs |-> <<"var", qs[i][2], qs[i][3]>>]])
+        /\ SharedHome => EmitScenario([kind |-> "graph", n |-> N, homes |-> [i \in 1..N |-> IF i = N THEN 0 ELSE i - 1],
+                                       edges |-> SetToSeq({<<e[1] - 1, e[2] - 1>> : e \in edges}), queries |-> qs \o [i \in DOMAIN qs |-> <<"var", qs[i][2], qs[i][3]>>]])
 =============================================================================
